@@ -99,7 +99,7 @@ PROPS['C05'] = dict(
     technique='contract-based deductive verification (Verus) of the verbatim TextMacroUsage arm and of the actual/formal binding block of resolve_text_macro_usage',
     level_text='Deductive proof that the usage arm pushes the expansion with the origin of the definition, adopts the table that comes back, propagates DefineNotFound/DefineNoArgs/DefineArgNotFound unchanged, suppresses the usage subtree and copies the trailing white space with its own range; that the binding block maps the i-th formal to the i-th actual, its default when omitted, and reports the three named errors; that split_text equals a reference tokeniser derived from 22.5.1 (identifier/other runs, string literals intact, one-line comments dropped, `\" closes a run); and that nested preprocessing receives the live define table.',
     level_note=ARMS_NOTE + ' Partial: the `replace` chain (`` , `\\`\", `\", line continuations) works on uninterpreted string functions and argument lexing lives in the parser; split_text itself is proved equal to a reference tokeniser.',
-    not_covered=['split_text and the replace chain (`` , `\", line continuations)', 'argument lexing in the parser', 'that the recursive re-preprocessing yields the fully expanded text'],
+    not_covered=['the replace chain (``, escaped quotes, line continuations): str::replace is an uninterpreted function here', 'argument lexing in the parser', 'that the recursive re-preprocessing yields the fully expanded text'],
 )
 PROPS['C06'] = dict(
     title='pass-through',
